@@ -8,7 +8,7 @@
   (`inputOK`, `viewOK`: Spec/Layout.lean) say only what the secmet constructors and region
   formation guarantee: areas are one part or `[s, L) + [0, e)` with `e < s`, lie inside the
   region, a protocluster's core lies inside the protocluster.  The model is the code with the
-  repairs D24, D25, D26 (fixes/) applied; without them 3, 5, 6 are false (corpus/C19).
+  repairs D24, D30, D31 (fixes/) applied; without them 3, 5, 6 are false (corpus/C19).
 -/
 import ASV.Proofs.PackingBuild
 import ASV.Proofs.PackingGenes
@@ -157,7 +157,7 @@ private def xl (s L e : Int) : Loc := .compound [⟨s, L, .fwd⟩, ⟨0, e, .fwd
 /-- the D24 layout and more: origin-spanning region `[800,1000) + [0,90)`; protoclusters before
     the origin (a1, b, a2), with the right neighbourhood across it (x), the core across it (y),
     after it (z) and with the left neighbourhood across it (w); an origin-spanning candidate
-    cluster whose collective core does not span the origin (D25) and an origin-spanning subregion -/
+    cluster whose collective core does not span the origin (D30) and an origin-spanning subregion -/
 def exCross : Ctx := ⟨xl 800 1000 90, 1000, true⟩
 def exCrossIn : RegionIn :=
   { subregions := [⟨xl 900 1000 50, .sub, default, false, "s"⟩],
@@ -178,7 +178,7 @@ example : (buildAreaRows exCross exCrossIn).map
           (1010, 1020, 1030, 1060, 8), (950, 1020, 1040, 1085, 10)] := by decide
 
 /-- whole circular record `[0,1000)`: the origin-spanning protocluster covering 90 % of the
-    record with its core before the origin but in the lower half (D26) is split into linked
+    record with its core before the origin but in the lower half (D31) is split into linked
     halves, the first carrying the core, the second an empty core at 0 -/
 def exWhole : Ctx := ⟨sl 0 1000, 1000, true⟩
 def exWholeIn : RegionIn :=
